@@ -162,3 +162,145 @@ Proof.
   intros s n H Hs. destruct s as [|c [|c' r]]; try discriminate.
   cbn in H. inversion H; subst. inversion Hs; subst. apply chr_ord_inverse. assumption.
 Qed.
+
+(* ---- the decoder accepts only encodings: what it returns re-encodes to the input ---- *)
+Lemma divmod_unique c q r : r < 64 -> c = 64 * q + r -> c / 64 = q /\ c mod 64 = r.
+Proof.
+  intros Hr Hc. split.
+  - symmetry. apply (N.div_unique c 64 q r); assumption.
+  - symmetry. apply (N.mod_unique c 64 q r); assumption.
+Qed.
+
+Lemma enc2 x y : 2 <= x <= 31 -> y < 64 ->
+  utf8_char (x * 64 + y) = [192 + x; 128 + y] /\ scalar (x * 64 + y).
+Proof.
+  intros Hx Hy. set (c := x * 64 + y).
+  destruct (divmod_unique c x y Hy ltac:(unfold c; lia)) as [D M].
+  unfold utf8_char.
+  destruct (N.ltb_spec c 128); [unfold c in *; lia|].
+  destruct (N.ltb_spec c 2048); [|unfold c in *; lia].
+  rewrite D, M. split; [reflexivity | unfold scalar, c; lia].
+Qed.
+
+Lemma enc3 x y z : x <= 15 -> y < 64 -> z < 64 -> (x = 0 -> 32 <= y) -> (x = 13 -> y < 32) ->
+  utf8_char (x * 4096 + y * 64 + z) = [224 + x; 128 + y; 128 + z] /\ scalar (x * 4096 + y * 64 + z).
+Proof.
+  intros Hx Hy Hz H0 H13. set (c := x * 4096 + y * 64 + z).
+  destruct (divmod_unique c (x * 64 + y) z Hz ltac:(unfold c; lia)) as [D1 M1].
+  destruct (divmod_unique (x * 64 + y) x y Hy ltac:(lia)) as [D2 M2].
+  assert (D3 : c / 4096 = x).
+  { change 4096 with (64 * 64). rewrite <- N.div_div by lia. rewrite D1. exact D2. }
+  unfold utf8_char.
+  destruct (N.ltb_spec c 128); [unfold c in *; lia|].
+  destruct (N.ltb_spec c 2048); [unfold c in *; lia|].
+  destruct (N.ltb_spec c 65536); [|unfold c in *; lia].
+  rewrite D3, D1, M2, M1. split; [reflexivity | unfold scalar, c; lia].
+Qed.
+
+Lemma enc4 w x y z : w <= 4 -> x < 64 -> y < 64 -> z < 64 -> (w = 0 -> 16 <= x) -> (w = 4 -> x < 16) ->
+  utf8_char (w * 262144 + x * 4096 + y * 64 + z) = [240 + w; 128 + x; 128 + y; 128 + z] /\
+  scalar (w * 262144 + x * 4096 + y * 64 + z).
+Proof.
+  intros Hw Hx Hy Hz H0 H4. set (c := w * 262144 + x * 4096 + y * 64 + z).
+  destruct (divmod_unique c (w * 4096 + x * 64 + y) z Hz ltac:(unfold c; lia)) as [D1 M1].
+  destruct (divmod_unique (w * 4096 + x * 64 + y) (w * 64 + x) y Hy ltac:(lia)) as [D2 M2].
+  destruct (divmod_unique (w * 64 + x) w x Hx ltac:(lia)) as [D3 M3].
+  assert (E2 : c / 4096 = w * 64 + x).
+  { change 4096 with (64 * 64). rewrite <- N.div_div by lia. rewrite D1. exact D2. }
+  assert (E3 : c / 262144 = w).
+  { change 262144 with (4096 * 64). rewrite <- N.div_div by lia. rewrite E2. exact D3. }
+  unfold utf8_char.
+  destruct (N.ltb_spec c 128); [unfold c in *; lia|].
+  destruct (N.ltb_spec c 2048); [unfold c in *; lia|].
+  destruct (N.ltb_spec c 65536); [unfold c in *; lia|].
+  rewrite E3, E2, M3, D1, M2, M1. split; [reflexivity | unfold scalar, c; lia].
+Qed.
+
+Lemma bind_ok_inv {A B} (o : outcome A) (f : A -> outcome B) b :
+  bind o f = Ok b -> exists a, o = Ok a /\ f a = Ok b.
+Proof. destruct o; cbn; intros H; try discriminate. eauto. Qed.
+
+Lemma utf8_decode_sound_n : forall n bs s, (length bs <= n)%nat -> utf8_decode bs = Ok s ->
+  Forall scalar s /\ utf8_encode s = bs.
+Proof.
+  induction n as [|n IH]; intros bs s Hlen H.
+  { destruct bs; [|cbn in Hlen; lia]. cbn in H. inversion H; subst. split; [constructor | reflexivity]. }
+  destruct bs as [|b0 r0]. { cbn in H. inversion H; subst. split; [constructor | reflexivity]. }
+  cbn [length] in Hlen. cbn [utf8_decode] in H.
+  destruct (N.ltb_spec b0 128) as [L0|L0].
+  { apply bind_ok_inv in H. destruct H as (s' & Hr & Hs). inversion Hs; subst.
+    destruct (IH r0 s' ltac:(lia) Hr) as [F E]. split.
+    - constructor; [unfold scalar; lia | exact F].
+    - unfold utf8_encode in *. cbn [flat_map]. rewrite E. unfold utf8_char.
+      destruct (N.ltb_spec b0 128); [reflexivity | lia]. }
+  destruct (in_range 194 223 b0) eqn:R2.
+  { apply in_range_iff in R2. destruct r0 as [|b1 r1]; [discriminate|].
+    destruct (is_cont b1) eqn:C1; [|discriminate]. apply in_range_iff in C1.
+    apply bind_ok_inv in H. destruct H as (s' & Hr & Hs). inversion Hs; subst. cbn [length] in Hlen.
+    destruct (IH r1 s' ltac:(lia) Hr) as [F E].
+    destruct (enc2 (b0 - 192) (b1 - 128) ltac:(lia) ltac:(lia)) as [U S].
+    split; [constructor; assumption|].
+    unfold utf8_encode in *. cbn [flat_map]. rewrite E, U. cbn [app]. f_equal; [lia|]. f_equal. lia. }
+  destruct (in_range 224 239 b0) eqn:R3.
+  { apply in_range_iff in R3. destruct r0 as [|b1 [|b2 r2]]; try discriminate.
+    destruct ((if b0 =? 224 then in_range 160 191 b1 else if b0 =? 237 then in_range 128 159 b1 else is_cont b1) && is_cont b2) eqn:C;
+      [|discriminate].
+    apply andb_true_iff in C. destruct C as [C1 C2]. apply in_range_iff in C2.
+    assert (B1 : 128 <= b1 <= 191 /\ (b0 = 224 -> 160 <= b1) /\ (b0 = 237 -> b1 <= 159)).
+    { destruct (N.eqb_spec b0 224); [apply in_range_iff in C1; lia|].
+      destruct (N.eqb_spec b0 237); [apply in_range_iff in C1; lia|]. apply in_range_iff in C1. lia. }
+    apply bind_ok_inv in H. destruct H as (s' & Hr & Hs). inversion Hs; subst. cbn [length] in Hlen.
+    destruct (IH r2 s' ltac:(lia) Hr) as [F E].
+    destruct (enc3 (b0 - 224) (b1 - 128) (b2 - 128) ltac:(lia) ltac:(lia) ltac:(lia) ltac:(lia) ltac:(lia)) as [U S].
+    split; [constructor; assumption|].
+    unfold utf8_encode in *. cbn [flat_map]. rewrite E, U. cbn [app]. f_equal; [lia|]. f_equal; [lia|]. f_equal. lia. }
+  destruct (in_range 240 244 b0) eqn:R4; [|discriminate].
+  apply in_range_iff in R4. destruct r0 as [|b1 [|b2 [|b3 r3]]]; try discriminate.
+  destruct ((if b0 =? 240 then in_range 144 191 b1 else if b0 =? 244 then in_range 128 143 b1 else is_cont b1)
+            && is_cont b2 && is_cont b3) eqn:C; [|discriminate].
+  apply andb_true_iff in C. destruct C as [C C3]. apply andb_true_iff in C. destruct C as [C1 C2].
+  apply in_range_iff in C2, C3.
+  assert (B1 : 128 <= b1 <= 191 /\ (b0 = 240 -> 144 <= b1) /\ (b0 = 244 -> b1 <= 143)).
+  { destruct (N.eqb_spec b0 240); [apply in_range_iff in C1; lia|].
+    destruct (N.eqb_spec b0 244); [apply in_range_iff in C1; lia|]. apply in_range_iff in C1. lia. }
+  apply bind_ok_inv in H. destruct H as (s' & Hr & Hs). inversion Hs; subst. cbn [length] in Hlen.
+  destruct (IH r3 s' ltac:(lia) Hr) as [F E].
+  destruct (enc4 (b0 - 240) (b1 - 128) (b2 - 128) (b3 - 128)
+                 ltac:(lia) ltac:(lia) ltac:(lia) ltac:(lia) ltac:(lia) ltac:(lia)) as [U S].
+  split; [constructor; assumption|].
+  unfold utf8_encode in *. cbn [flat_map]. rewrite E, U. cbn [app].
+  f_equal; [lia|]. f_equal; [lia|]. f_equal; [lia|]. f_equal. lia.
+Qed.
+
+(* utf8_decode succeeds only on well-formed input: its result is a string of scalar values whose
+   encoding is the input (so overlong forms, surrogates, values above U+10FFFF, stray or missing
+   continuation bytes are all value errors); it never panics *)
+Theorem utf8_decode_sound : forall (bs : list N) (s : str), utf8_decode bs = Ok s ->
+  Forall scalar s /\ utf8_encode s = bs.
+Proof. intros bs s H. apply (utf8_decode_sound_n (length bs) bs s (le_n _) H). Qed.
+
+Lemma utf8_decode_total_n : forall n bs, (length bs <= n)%nat ->
+  (exists s, utf8_decode bs = Ok s) \/ utf8_decode bs = Err EValue.
+Proof.
+  induction n as [|n IH]; intros bs Hlen.
+  { destruct bs; [|cbn in Hlen; lia]. left. exists []. reflexivity. }
+  destruct bs as [|b0 r0]; [left; exists []; reflexivity|].
+  cbn [length] in Hlen. cbn [utf8_decode].
+  assert (K : forall r (f : str -> str), (length r <= n)%nat ->
+            (exists s, (s <- utf8_decode r ;; Ok (f s)) = Ok s) \/ (s <- utf8_decode r ;; Ok (f s)) = Err EValue).
+  { intros r f Hr. destruct (IH r Hr) as [(s & ->) | ->]; [left; eexists; reflexivity | right; reflexivity]. }
+  destruct (b0 <? 128); [apply K; lia|].
+  destruct (in_range 194 223 b0).
+  { destruct r0 as [|b1 r1]; [right; reflexivity|]. cbn [length] in Hlen.
+    destruct (is_cont b1); [apply K; lia | right; reflexivity]. }
+  destruct (in_range 224 239 b0).
+  { destruct r0 as [|b1 [|b2 r2]]; try (right; reflexivity). cbn [length] in Hlen.
+    destruct (_ && _); [apply K; lia | right; reflexivity]. }
+  destruct (in_range 240 244 b0); [|right; reflexivity].
+  destruct r0 as [|b1 [|b2 [|b3 r3]]]; try (right; reflexivity). cbn [length] in Hlen.
+  destruct (_ && _); [apply K; lia | right; reflexivity].
+Qed.
+
+Theorem utf8_decode_total : forall bs : list N,
+  (exists s, utf8_decode bs = Ok s) \/ utf8_decode bs = Err EValue.
+Proof. intros bs. apply (utf8_decode_total_n (length bs) bs (le_n _)). Qed.
